@@ -1,15 +1,46 @@
 // C12: integer -> text -> integer is exact for every value, width and base; to_* on arbitrary
 // text agrees with the C library's strtol family and the ok/full_match flag rule.
-#include <string_theory/format>
-#include <string_theory/string>
-#include <string_theory/string_stream>
-
+//
+// Every standard header the library uses is included first, so that the `abs` shim below is
+// seen by the string_theory headers only.
 #include <algorithm>
+#include <cmath>
+#include <complex>
+#include <cstddef>
+#include <cstdint>
+#include <cstdio>
+#include <cstdlib>
+#include <filesystem>
+#include <functional>
+#include <istream>
+#include <iterator>
 #include <limits>
+#include <ostream>
+#include <stdexcept>
+#include <string>
+#include <string_view>
 #include <type_traits>
+#include <utility>
+#include <vector>
 
 #include "common/verif.h"
 #include "ref/ref_inttext.h"
+
+// "... is computed without undefined behaviour": abs/labs/llabs of the most negative value is
+// undefined, but clang 14 expands them as builtins that -fsanitize=undefined does not instrument
+// (checked with a probe: std::abs(INT_MIN) runs silently).  While the library headers are being
+// read, `abs` therefore names a plain C++ definition with the same meaning - the operand after
+// integral promotion, negated if negative - whose negation UBSan does instrument.  For every
+// operand abs is defined for, the result is the same.
+namespace std {
+template <class T> constexpr auto c12_visible_abs(T v) -> decltype(+v) { auto p = +v; return p < 0 ? -p : p; }
+}
+using std::c12_visible_abs;
+#define abs c12_visible_abs
+#include <string_theory/format>
+#include <string_theory/string>
+#include <string_theory/string_stream>
+#undef abs
 
 using verif::Case;
 
